@@ -88,27 +88,7 @@ MANIFEST = {
 ENGINE = {"name": "coq-encrypt", "path": "coq/Tag.v coq/Encrypt.v coq/EncryptProofs.v coq/Run_Encrypt.v coq/Crypto.v coq/CryptoProofs.v coq/Run_Crypto.v harness/cmd/encrypth lib/eng_encrypt.py",
           "serves_properties": ["C09", "C10", "C16"], "kind_free_text": "Coq model + proofs; Go differential driver with independent crypto; vm_compute comparison"}
 
-# Proposed known-finding lines live beside the red/green records until they are merged into KNOWN_FINDINGS.txt (which this
-# engine may not edit): vcheck.finish consults them through load_known.
-_PROPOSED = os.path.join(V.VERIF, "notes", "redgreen", "PROPOSED_KNOWN_FINDINGS.txt")
-_orig_load_known = V.load_known
-
-
-def _load_known_with_proposed():
-    known, fixed = _orig_load_known()
-    have = {k.get("id") for k in known}
-    if os.path.exists(_PROPOSED):
-        for line in open(_PROPOSED):
-            line = line.strip()
-            if line.startswith("known:"):
-                d = dict(kv.split("=", 1) for kv in line[6:].split() if "=" in kv and kv.split("=")[0] in ("property", "id", "match"))
-                if d.get("property") in ("C09", "C10", "C16") and d.get("id") not in have:
-                    d["text"] = line
-                    known.append(d)
-    return known, fixed
-
-
-V.load_known = _load_known_with_proposed
+# known findings are read from KNOWN_FINDINGS.txt only (vcheck.load_known)
 
 
 # mismatch items as Coq prints them, with or without the %N scope suffix
